@@ -310,4 +310,110 @@ theorem compress_out (x : List UInt8) (hx : ∀ c ∈ x, c ≠ b64Invalid) : (co
   simp only [List.nil_append]
   exact normList_eq_collapse x hx
 
+/-! ### size bounds (no RLE overflow, encodable positions) -/
+
+structure Bnd (s : St) (p : List UInt8) : Prop where
+  empty : p = [] → s.ents = [] ∧ s.seq = 0 ∧ s.out = []
+  ents : p ≠ [] → 4 * s.ents.length + (s.seq + 1) ≤ p.length ∧ min (s.seq + 1) 3 ≤ s.out.length
+  outLe : s.out.length ≤ p.length
+  wf : ∀ e ∈ s.ents, 2 ≤ e.1 ∧ 1 ≤ e.2 ∧ e.2 ≤ 4
+  lt : ∀ e ∈ s.ents, e.1 < s.out.length
+  srt : List.Pairwise (fun a b : Nat × Nat => a.1 ≤ b.1) s.ents
+
+theorem chunks_length (pos ext : Nat) : (chunks pos ext).length = (ext - 1) / 4 + 1 := by
+  unfold chunks; simp
+
+theorem chunks_mem (pos ext : Nat) (e : Nat × Nat) (h : e ∈ chunks pos ext) : e.1 = pos ∧ 1 ≤ e.2 ∧ e.2 ≤ 4 := by
+  unfold chunks at h
+  rcases List.mem_append.mp h with h1 | h1
+  · have := (List.mem_replicate.mp h1).2; rw [this]; simp
+  · simp at h1; rw [h1]; simp; omega
+
+theorem bnd_init : Bnd {} [] :=
+  ⟨fun _ => ⟨rfl, rfl, rfl⟩, fun h => absurd rfl h, by simp, fun e he => by simp at he, fun e he => by simp at he,
+   List.Pairwise.nil⟩
+
+theorem pending_sorted (s : St) (p : List UInt8) (h : Bnd s p) :
+    List.Pairwise (fun a b : Nat × Nat => a.1 ≤ b.1) (s.ents ++ pending s) ∧
+    ∀ e ∈ s.ents ++ pending s, e.1 < s.out.length := by
+  unfold pending
+  split
+  · next h3 =>
+    have hp : p ≠ [] := by intro e0; have := (h.empty e0).2.1; omega
+    have hol := (h.ents hp).2
+    refine ⟨?_, ?_⟩
+    · rw [List.pairwise_append]
+      refine ⟨h.srt, ?_, ?_⟩
+      · unfold chunks
+        rw [List.pairwise_append]
+        refine ⟨List.pairwise_replicate.mpr (Or.inr (Nat.le_refl _)), List.pairwise_singleton _ _, ?_⟩
+        intro a ha b hb
+        have := (List.mem_replicate.mp ha).2
+        simp at hb
+        rw [this, hb]; exact Nat.le_refl _
+      · intro a ha b hb
+        have := h.lt a ha
+        have := (chunks_mem _ _ b hb).1
+        omega
+    · intro e he
+      rcases List.mem_append.mp he with h1 | h1
+      · exact h.lt e h1
+      · have := (chunks_mem _ _ e h1).1; omega
+  · simp only [List.append_nil]
+    exact ⟨h.srt, h.lt⟩
+
+
+theorem bnd_step (s : St) (p : List UInt8) (curr : UInt8) (h : Bnd s p) (hc : curr ≠ b64Invalid)
+    (hprev : p = [] → s.prev = b64Invalid) : Bnd (step s curr) (p ++ [curr]) := by
+  unfold step
+  by_cases hsame : (curr == s.prev) = true
+  · have hcp : curr = s.prev := by simpa using hsame
+    have hne : p ≠ [] := by intro e; apply hc; rw [hcp]; exact hprev e
+    obtain ⟨b1, b2⟩ := h.ents hne
+    rw [if_pos hsame]
+    by_cases hseq : s.seq + 1 ≥ 3
+    · rw [if_pos hseq]
+      refine ⟨fun e => by simp at e, fun _ => ⟨by simp; omega, by simp; omega⟩, by have := h.outLe; simp; omega, h.wf,
+        h.lt, h.srt⟩
+    · rw [if_neg hseq]
+      refine ⟨fun e => by simp at e, fun _ => ⟨by simp; omega, by simp; omega⟩, by have := h.outLe; simp; omega, h.wf,
+        fun e he => by have := h.lt e he; simp; omega, h.srt⟩
+  · rw [if_neg hsame]
+    have hpl : (pending s).length = if s.seq ≥ 3 then (s.seq - 3) / 4 + 1 else 0 := by
+      unfold pending
+      split
+      · rw [chunks_length]; congr 2
+      · rfl
+    obtain ⟨ps1, ps2⟩ := pending_sorted s p h
+    refine ⟨fun e => by simp at e, fun _ => ⟨?_, by simp⟩, by have := h.outLe; simp; omega, ?_,
+      fun e he => by have := ps2 e he; simp; omega, ps1⟩
+    · simp only [List.length_append, hpl, List.length_cons, List.length_nil]
+      by_cases hp : p = []
+      · obtain ⟨e1, e2, _⟩ := h.empty hp
+        rw [e1, e2, hp]; simp
+      · obtain ⟨b1, _⟩ := h.ents hp
+        split <;> omega
+    · intro e he
+      rcases List.mem_append.mp he with h1 | h1
+      · exact h.wf e h1
+      · unfold pending at h1
+        split at h1
+        · next h3 =>
+          obtain ⟨c1, c2, c3⟩ := chunks_mem _ _ e h1
+          have hp : p ≠ [] := by intro e0; have := (h.empty e0).2.1; omega
+          have := (h.ents hp).2
+          exact ⟨by rw [c1]; omega, c2, c3⟩
+        · simp at h1
+
+theorem bnd_fold (y : List UInt8) : ∀ (s : St) (p : List UInt8), Bnd s p → (p = [] → s.prev = b64Invalid) →
+    (∀ c ∈ y, c ≠ b64Invalid) → Bnd (y.foldl step s) (p ++ y) := by
+  induction y with
+  | nil => intro s p h _ _; simpa using h
+  | cons c cs ih =>
+    intro s p h hp hy
+    simp only [List.foldl_cons]
+    have := ih (step s c) (p ++ [c]) (bnd_step s p c h (hy c (by simp)) hp) (fun e => by simp at e)
+      (fun d hd => hy d (by simp [hd]))
+    simpa using this
+
 end Ffuzzy.DualA
